@@ -1,5 +1,6 @@
 import WitnessVerif.Proofs.Frame
 import WitnessVerif.Proofs.BytesRun
+import WitnessVerif.Proofs.OpenSigned
 /-
 C04 — every checkpoint handed out is the log's text, validly cosigned, and fresh.
 -/
@@ -110,5 +111,33 @@ theorem C04_stored_reparses (cfg : Cfg) (env : Env) (id : Bytes) (old : Nat) (ne
     obtain ⟨p', n'⟩ := pq
     exact ⟨l, next, nn, signed, p', n', hfind, hparse, hset, hq,
       (parse_sign_same l nextRaw next nn outs signed p' n' hparse hsign hq).1⟩
+
+end C04
+
+namespace C04
+open Wit
+
+/-- exactly one valid signature from each configured witness key: whoever opens the bytes an accepted
+    update returned (= stored, = what a read returns) under a verifier list `vs` that knows each witness
+    key unambiguously finds the log's text, pairwise distinct verified signature keys (so no key appears
+    twice, even when the submitted note already carried a stale copy of the witness's own signature or
+    any number of extra known/unknown lines), every kept signature verified by `vs` over that text, and
+    for every configured witness signer a kept signature under its name and key hash.  The hypothesis
+    on the signers records what the Go signers guarantee: a 32-bit key hash and a non-empty signature. -/
+theorem C04_one_valid_sig_per_witness_key (cfg : Cfg) (env : Env) (id : Bytes) (old : Nat) (nextRaw : Bytes)
+    (proof : List Bytes) (h : (update cfg env id old nextRaw proof).err = .none)
+    (hwf : ∀ text outs, cfg.signers text = some outs → ∀ s ∈ outs, s.sig ≠ [] ∧ s.hash < 2 ^ 32) :
+    ∃ (nn : Note.Note) (outs : List Note.SignerOut) (signed : Bytes), cfg.signers nn.text = some outs ∧
+      (update cfg env id old nextRaw proof).ret = some signed ∧
+      ∀ vs n', Note.open signed vs = .ok n' →
+        (∀ s ∈ outs, ∃ v, Note.lookup vs s.name s.hash = .found v) →
+        n'.text = nn.text ∧ (n'.sigs.map Note.key).Nodup ∧
+        (∀ x ∈ n'.sigs, Note.Verified vs n'.text x) ∧
+        ∀ s ∈ outs, ∃ x ∈ n'.sigs, x.name = s.name ∧ x.hash = s.hash := by
+  obtain ⟨l, next, nn, outs, signed, _, hparse, hsg, hsign, _, hret, _, _⟩ := update_accepted cfg env id old nextRaw proof h
+  obtain ⟨hopen, _, _, _⟩ := parse_spec l nextRaw next nn hparse
+  obtain ⟨hok, _, _, _⟩ := Note.open_spec nextRaw [l.verifier] nn hopen
+  exact ⟨nn, outs, signed, hsg, hret, fun vs n' ho hk =>
+    Note.open_signed_one_per_key nn outs signed hok hsign vs n' ho (hwf _ _ hsg) hk⟩
 
 end C04
